@@ -902,6 +902,14 @@ def run_util(case):
     if name == 'CompressPass':
         run_pass(P.CompressPass(), c1, data)
         chk_exact(r, name, u0, U(c1))
+        fwd = list(c0)
+        r.info['model_line'] = 'compress [' + ' '.join('[%d [%s]]' % (i, ' '.join(map(str, op.location))) for i, op in enumerate(fwd)) + ']'
+        r.info['keys'] = [list(map(str, opkey(op))) for op in fwd]
+        tl = [[] for _ in range(c1.num_qudits)]
+        for cyc, op in c1.operations_with_cycles():
+            for q in op.location:
+                tl[q].append([cyc, list(map(str, opkey(op)))])
+        r.info['impl'] = tl
         if timelines(c0) != timelines(c1):
             r.bad({'pass': name, 'symptom': 'timeline_changed'}, 'same per-qudit timelines', 'different', f'{name}: per-qudit order changed')
         if c1.num_cycles > c0.num_cycles:
@@ -911,6 +919,20 @@ def run_util(case):
     elif name == 'UnfoldPass':
         run_pass(P.UnfoldPass(), c1, data)
         chk_exact(r, name, u0, U(c1))
+        keys = []
+
+        def tree(d):
+            out = []
+            for nm, loc, params in d['ops']:
+                if nm == 'BLOCK':
+                    out.append('[B [%s] %s]' % (' '.join(map(str, loc)), tree(params)))
+                else:
+                    keys.append([nm, [round(float(p), 9) for p in params]])
+                    out.append('[L %d [%s]]' % (len(keys) - 1, ' '.join(map(str, loc))))
+            return '[' + ' '.join(out) + ']'
+        r.info['model_line'] = 'unfold ' + tree(case['circ'])
+        r.info['keys'] = keys
+        r.info['impl'] = [[[k[0], list(k[1]), list(k[2])] for k in tl] for tl in timelines(c1)]
         if any(isinstance(op.gate, G.CircuitGate) for op in c1):
             r.bad({'pass': name, 'symptom': 'post'}, 'no CircuitGate', 'CircuitGate left', f'{name}: a block survived unfold_all')
         if flat_timelines(c0) != timelines(c1):
@@ -919,6 +941,24 @@ def run_util(case):
     elif name == 'GroupSingleQuditGatePass':
         run_pass(P.GroupSingleQuditGatePass(), c1, data)
         chk_exact(r, name, u0, U(c1))
+        if not any(isinstance(op.gate, G.CircuitGate) for op in c0):
+            lines, impl = [], []
+            t0 = timelines(c0)
+            for q in range(c0.num_qudits):
+                lines.append('group [' + ' '.join('[%d %d]' % (i, int(len(k[1]) == 1)) for i, k in enumerate(t0[q])) + ']')
+                items = []
+                for cyc in range(c1.num_cycles):
+                    if c1.is_point_idle((cyc, q)):
+                        continue
+                    op = c1[cyc, q]
+                    if isinstance(op.gate, G.CircuitGate):
+                        items.append(['G'] + [list(map(str, opkey(o)[:1] + opkey(o)[2:])) for o in op.gate._circuit])
+                    else:
+                        items.append(['M', list(map(str, opkey(op)))])
+                impl.append(items)
+            r.info['model_lines'] = lines
+            r.info['t0'] = [[list(map(str, k)) for k in tl] for tl in t0]
+            r.info['impl'] = impl
         if flat_timelines(c0) != flat_timelines(c1):
             r.bad({'pass': name, 'symptom': 'timeline_changed'}, 'same flattened timelines', 'different', f'{name}: order changed')
         for q in range(c1.num_qudits):
@@ -1180,6 +1220,7 @@ def run_cosim(case):
     else:
         line = f'iter {int(left)} 5 {g} {ids_f} {sc}'
     r.info.update(model_line=line, outcome=outcome, final=id_grid(c1) if outcome == 'OK' else None, log=log, dense=dense,
+                  batch_sizes=[len(b) for b in batches],
                   removed=c0.num_operations - c1.num_operations if outcome == 'OK' else 0)
     # the oracle on the real run: only candidates accepted by the scripted cost may be committed
     if outcome == 'OK':
@@ -1195,10 +1236,115 @@ def run_cosim(case):
     return r.out()
 
 
+def gen_rebase_cosim(rng, thorough):
+    n = rng.randint(2, 3)
+    srcs = rng.choice([['CZ'], ['CZ'], ['CZ', 'ISWAP'], ['CH']])
+    ops = []
+    for _ in range(rng.randint(1, 4)):
+        ops.append([rng.choice(srcs), rng.sample(range(n), 2), []])
+        for _ in range(rng.randint(0, 2)):
+            ops.append(['U3', [rng.randrange(n)], [rng.uniform(-3, 3) for _ in range(3)]])
+    k = rng.randint(3, 25)
+    script = [rng.choice([1, 9, 9, 9, 5]) for _ in range(k)] + [1] * 400
+    return dict(p='Rebase2QuditGatePass', kind='rebase', circ=dict(n=n, ops=ops), srcs=srcs, script=script,
+                max_depth=rng.randint(1, 3), max_retries=rng.choice([-1, 0, 1, 2]), two_new=rng.random() < 0.3, auto=rng.random() < 0.4)
+
+
+class NoProgress(Exception):
+    pass
+
+
+def run_rebase_cosim(case):
+    S = _setup()
+    P = S['P']
+    Circuit = S['Circuit']
+    from bqskit.ir.opt.cost.generator import CostFunctionGenerator
+    r = Rep(case)
+    c0 = build(case['circ'])
+    srcs = [S['REG'][g]() for g in case['srcs']]
+    news = [S['REG']['CX']()] + ([S['REG']['SQISW']()] if case['two_new'] else [])
+    script = case['script']
+    table, starts, batches = [], [], []
+    u0 = S['UnitaryMatrix'](U(c0))
+    if u0.get_distance_from(S['UnitaryMatrix'].identity(u0.dim)) < 0.5:
+        r.nontrivial = False
+        return r.out()
+
+    class Scripted(CostFunctionGenerator):
+        def gen_cost(self, circuit, target):
+            raise RuntimeError('scripted')
+
+        def calc_cost(self, circuit, target):
+            i = len(table)
+            if i > 600:
+                raise NoProgress()
+            table.append([circuit.count(g) if g in circuit.gate_set else 0 for g in srcs])
+            return (script[i] if i < len(script) else 1) / 10.0
+
+    data = S['PassData'](c0)
+    if case.get('auto'):
+        case = dict(case, p='AutoRebase2QuditGatePass')
+        r.case = case
+        p = P.AutoRebase2QuditGatePass(case['max_depth'], case['max_retries'], 0.5, Scripted())
+        data.gate_set = S['GateSet'](news + [S['G'].U3Gate()])
+        new_sorted = [g for g in data.gate_set if g.num_qudits == 2]
+        tcirc, tcounts, _, _ = p.generate_new_gate_templates(new_sorted, data.gate_set.get_general_sq_gate())
+        tcounts, ocount = tcounts[:len(tcirc)], tcounts[-1]
+        srcs = []
+    else:
+        p = P.Rebase2QuditGatePass(srcs, news, case['max_depth'], case['max_retries'], 0.5, Scripted())
+        tcounts, ocount = p.counts[:len(p.circs)], p.counts[-1]
+    orig_group = p.group_near_gates
+
+    def group(circuit, center, gates):
+        if not srcs:
+            srcs.extend(gates)
+        starts.append([circuit.count(g) if g in circuit.gate_set else 0 for g in srcs])
+        return orig_group(circuit, center, gates)
+    p.group_near_gates = group
+    c1 = c0.copy()
+    orig_inst = Circuit.instantiate
+    import bqskit.runtime.worker as W
+    rt = W._worker
+
+    class RecRT(FakeRuntime):
+        def map(self, fn, *args, **kw):
+            batches.append(len(args[0]))
+            return FakeRuntime.map(self, fn, *args, **kw)
+
+    def fake_inst(self, target, *a, **k):
+        return self
+    Circuit.instantiate = fake_inst
+    W._worker = RecRT()
+    try:
+        run_pass(p, c1, data)
+    except NoProgress:
+        r.bad({'pass': case['p'], 'symptom': 'no_progress'}, 'the loop ends once every candidate is accepted',
+              'still looping after 600 scripted cost calls, source gates left: %s' % (starts[-1] if starts else '?'),
+              case['p'] + ': accepted replacements do not remove the source gate (loop never ends)')
+        return r.out()
+    finally:
+        Circuit.instantiate = orig_inst
+        W._worker = rt
+    if not srcs:            # auto: nothing to rebase
+        r.nontrivial = False
+        return r.out()
+    final = [c1.count(g) if g in c1.gate_set else 0 for g in srcs]
+    fm = lambda l: '[' + ' '.join(map(str, l)) + ']'
+    counts0 = [c0.count(g) if g in c0.gate_set else 0 for g in srcs]
+    line = 'rebase 5 %d %d 200 %s %s %s %d %s %s' % (
+        case['max_depth'], case['max_retries'], fm(range(len(srcs))), fm(counts0), fm(tcounts), ocount,
+        '[' + ' '.join(fm(t) for t in table) + ']', fm(script[:len(table)]))
+    r.info.update(model_line=line, final=final, calls=len(table), starts=starts, batches=batches)
+    if any(final):
+        r.bad({'pass': case['p'], 'symptom': 'source_gate_left'}, [0] * len(srcs), final, case['p'] + ' returned with source gates left (oracle injection)')
+    return r.out()
+
+
 RUNNERS = {
     'rule': run_rule, 'u3dec': run_u3dec, 'zxzxz': run_zxzxz, 'gsq': run_gsq, 'rebase': run_rebase,
     'removal': run_removal, 'subst': run_subst, 'extract_diag': run_extract_diag, 'analytic': run_analytic,
-    'walsh': run_walsh, 'synth': run_synth, 'util': run_util, 'cosim': run_cosim,
+    'walsh': run_walsh, 'synth': run_synth, 'util': run_util, 'cosim': run_cosim, 'rebase_cosim': run_rebase_cosim,
 }
 
 
@@ -1265,6 +1411,10 @@ def gen_tasks(ctx, rng, scale=1.0, only=None):
             c = gen_cosim_case(rng, kind, th)
             if only is None or c['p'] in only:
                 T.append(dict(fam='cosim', case=c, timeout=60))
+    for _ in range(n(20, 250)):
+        c = gen_rebase_cosim(rng, th)
+        if only is None or c['p'] in only:
+            T.append(dict(fam='rebase_cosim', case=c, timeout=60))
     # (i) rules
     for name in RULES:
         for _ in range(n(14, 120)):
@@ -1649,6 +1799,23 @@ def rules_correspondence(ctx, results):
     return names
 
 
+def model_view_of_log(case, info):
+    """the tree scan costs every candidate of a chunk; the skeleton stops at the first success:
+    project the real log onto what the model evaluates"""
+    if case['kind'] != 'tree':
+        return info['log']
+    out, idx = [], 0
+    for nb in info['batch_sizes']:
+        for j in range(nb):
+            if idx + j >= len(info['log']):
+                break
+            out.append(info['log'][idx + j])
+            if idx + j < len(case['script']) and case['script'][idx + j] < 5:
+                break
+        idx += nb
+    return out
+
+
 def skeleton_correspondence(ctx, results):
     """oracle-injected real runs vs the extracted decision skeletons"""
     items = [res for res in results if res['fam'] == 'cosim' and res['info'].get('model_line')]
@@ -1673,7 +1840,7 @@ def skeleton_correspondence(ctx, results):
         if case['kind'] in ('scan', 'tree'):
             sig['start_from_left'] = case['left']
         exp = dict(outcome=m_out, final=m_final, costed=m_log)
-        obs = dict(outcome=info['outcome'], final=info['final'], costed=info['log'])
+        obs = dict(outcome=info['outcome'], final=info['final'], costed=model_view_of_log(case, info))
         if info['outcome'] == 'IndexError':
             ctx.count('cosim_indexerror:' + case['kind'])
             # the real pass raised: report it as a violation of the pass (the model must agree that it raises)
@@ -1685,6 +1852,76 @@ def skeleton_correspondence(ctx, results):
         elif info['outcome'] == 'OK' and case['kind'] == 'tree' and not case['left']:
             # agreement on a right-to-left tree scan: did it remove operations other than the visited ones? (C10.T1)
             pass
+
+
+def util_correspondence(ctx, results):
+    """list models of pass/Util.v vs the real UnfoldPass / CompressPass / GroupSingleQuditGatePass"""
+    lines, meta = [], []
+    for res in results:
+        if res['fam'] != 'util':
+            continue
+        if 'model_line' in res['info']:
+            lines.append(res['info']['model_line'])
+            meta.append((res, None))
+        for q, ln in enumerate(res['info'].get('model_lines', [])):
+            lines.append(ln)
+            meta.append((res, q))
+    out = vf.run_model('passes', lines) if lines else []
+    for (res, q), got in zip(meta, out):
+        case, info, name = res['case'], res['info'], res['case']['p']
+        ctx.count('util_model:' + name)
+        m = pv(got)
+        if isinstance(m, str):
+            ctx.broken_obligation('utility model: unexpected answer', got[:200])
+            continue
+        if name == 'UnfoldPass':
+            n = case['circ']['n']
+            tl = [[] for _ in range(n)]
+            for lid, loc in m:
+                nm, ps = info['keys'][lid]
+                for x in loc:
+                    tl[x].append([nm, list(loc), ps])
+            exp, obs = tl, info['impl']
+        elif name == 'CompressPass':
+            n = case['circ']['n']
+            tl = [[] for _ in range(n)]
+            locs = {}
+            for tok in pv(info['model_line'].split(' ', 1)[1]):
+                locs[tok[0]] = tok[1]
+            for cyc, lid in sorted(m, key=lambda t: (t[0], locs[t[1]][0] if locs[t[1]] else 0)):
+                for x in locs[lid]:
+                    tl[x].append([cyc, info['keys'][lid]])
+            exp, obs = tl, info['impl']
+        else:
+            t0 = info['t0'][q]
+            exp = []
+            for it in m:
+                if it[0] == 'G':
+                    exp.append(['G'] + [[t0[i][0]] + t0[i][2:] for i in it[1:]])
+                else:
+                    exp.append(['M', t0[it[1]]])
+            obs = info['impl'][q]
+        if exp != obs:
+            ctx.violation({'pass': name, 'kind': 'model-mismatch'}, case, exp, obs,
+                          f'{name}: result differs from the Coq list model', kind='correspondence', corr='coq/pass/Util.v')
+
+
+def rebase_correspondence(ctx, results):
+    items = [res for res in results if res['fam'] == 'rebase_cosim' and res['info'].get('model_line')]
+    out = vf.run_model('passes', [res['info']['model_line'] for res in items]) if items else []
+    for res, got in zip(items, out):
+        info = res['info']
+        ctx.count('cosim:rebase')
+        m = pv(got)
+        if isinstance(m, str) or m[0] != 'OK':
+            exp = dict(outcome=str(m)[:80])
+        else:
+            exp = dict(final=m[1], calls=m[2], starts=m[4])
+        obs = dict(final=info['final'], calls=info['calls'], starts=info['starts'])
+        if exp != obs:
+            ctx.violation({'pass': res['case']['p'], 'kind': 'model-mismatch'}, res['case'], exp, obs,
+                          res['case']['p'] + ': loop decisions differ from the Coq skeleton (source-gate counts at each iteration / calls / result)',
+                          kind='correspondence', corr='coq/pass/ScanSkel.v rebase_all vs bqskit/passes/retarget/two.py')
 
 
 def run(ctx: vf.Ctx):
@@ -1725,6 +1962,8 @@ def run(ctx: vf.Ctx):
         rules_correspondence(ctx, results)
     if all(ctx.extract_ok.get(k) for k in BUILD['extracted']):
         skeleton_correspondence(ctx, results)
+        rebase_correspondence(ctx, results)
+        util_correspondence(ctx, results)
     # directed search when something is broken: deepen the oracle of the rule family (x6)
     if ctx.broken and not ctx.violations:
         deep = gen_tasks(ctx, random.Random(ctx.seed + 1), scale=6.0, only=set(RULES) | {'ZXZXZDecomposition', 'U3Decomposition'})
